@@ -264,13 +264,35 @@ func VerifC02Reelected() {
 	vCover("second-term")
 	check("term of the second leader")
 	phase(vParam("s2", 2), []string{"a", other}, 1, "", "term of the second leader")
-	// term 3: the second leader crashes, a leads again; the crashed replica
-	// stays listed in sync until the leader has it removed
-	reps[second].alive = false
-	switchTo("a", 9)
-	vCover("a-leads-again")
-	check("second term of a")
-	phase(vParam("s3", 3), []string{other}, 2, second, "second term of a")
+	// term 3: the second leader crashes (or, by choice in the thorough tier, is
+	// deposed alive and follows), a leads again (or, by choice in the thorough
+	// tier, the third replica, which has followed two leaders by then); a crashed
+	// replica stays listed in sync until the leader has it removed
+	third := "a"
+	if vParam("third", 0) == 1 && vChoose(2) == 1 {
+		third = other
+		vCover("third-replica-leads")
+	}
+	followers3 := []string{}
+	for _, n := range []string{"a", "b", "c"} {
+		if n != third && n != second {
+			followers3 = append(followers3, n)
+		}
+	}
+	canShrink := second
+	if vParam("secondalive", 0) == 1 && vChoose(2) == 1 {
+		followers3 = append(followers3, second)
+		canShrink = ""
+		vCover("second-leader-deposed-alive")
+	} else {
+		reps[second].alive = false
+	}
+	switchTo(third, 9)
+	if third == "a" {
+		vCover("a-leads-again")
+	}
+	check("third term")
+	phase(vParam("s3", 3), followers3, 2, canShrink, "third term")
 	_ = a
 	vCover("done")
 }
